@@ -140,6 +140,8 @@ fn create_storage_impl(path: &str) -> std::io::Result<StorageImpl> {
 pub(crate) struct SharedMmap {
     storage: StorageImpl,
     last_touched_at: AtomicU64,
+    #[cfg(walrus_verif)]
+    verif_path: String,
 }
 
 // SAFETY: `SharedMmap` provides interior mutability only via methods that
@@ -161,10 +163,18 @@ impl SharedMmap {
         Ok(Arc::new(Self {
             storage,
             last_touched_at: AtomicU64::new(now_ms),
+            #[cfg(walrus_verif)]
+            verif_path: path.to_string(),
         }))
     }
 
     pub(crate) fn write(&self, offset: usize, data: &[u8]) {
+        #[cfg(walrus_verif)]
+        if crate::wal::verif::io_event("write", &self.verif_path, offset as u64, data.len() as u64)
+            == crate::wal::verif::IoDecision::Fail
+        {
+            return; // a failed pwrite: the FD backend ignores the result
+        }
         // Bounds check before raw copy to maintain memory safety
         debug_assert!(offset <= self.storage.len());
         debug_assert!(self.storage.len() - offset >= data.len());
@@ -189,6 +199,10 @@ impl SharedMmap {
     }
 
     pub(crate) fn flush(&self) -> std::io::Result<()> {
+        #[cfg(walrus_verif)]
+        if crate::wal::verif::io_event("flush", &self.verif_path, 0, 0) == crate::wal::verif::IoDecision::Fail {
+            return Err(crate::wal::verif::injected_error());
+        }
         self.storage.flush()
     }
 
